@@ -98,7 +98,7 @@ Record finfo := { fi_nil : bool;                 (* isNiladic *)
 Record benv := { b_funcs : list (str * bool);          (* builtins.Funcs: name, isNiladic *)
                  b_globals : list str;                 (* builtins.Globals *)
                  b_events : list (str * list ty);      (* builtins.EventHandlers: parameter types *)
-                 b_tyerr : tsite -> tree -> nat -> bool }.
+                 b_tyerr : tsite -> tree -> nat -> bool }.   (* site, tree, blamed token *)
 
 Record pst := { cs : pstate;                     (* token cursor, wss stack, errors, used log *)
                 scs : list scope;                (* p.scope chain, innermost first *)
@@ -256,7 +256,7 @@ Definition p_dot (left : tree) : pst -> PR (option tree) :=
 Definition p_type : pst -> PR (option ty) :=
   expr_call (fun E f c => parse_type f c).
 
-Definition tyerr_s (site : tsite) (t : tree) (s : pst) : bool := b_tyerr B site t (pos s).
+Definition tyerr_s (site : tsite) (t : tree) (blame : nat) : bool := b_tyerr B site t blame.
 Definition ty_err_here (site : tsite) (s : pst) : pst := upd (add_err (E_type site)) s.
 
 Definition is_func (n : str) (s : pst) : bool := match lookup_fn n (fns s) with Some _ => true | None => false end.
@@ -302,7 +302,7 @@ Definition parse_inferred_decl_stmt (s : pst) : PR (option stmt) :=
   match v with
   | None => Ok None (apnl (serr K_invalid_inferred s2))
   | Some t =>
-    if tyerr_s TS_decl_none t s2 then Ok None (apnl (ty_err_here TS_decl_none s2)) else
+    if tyerr_s TS_decl_none t (pos s2) then Ok None (apnl (ty_err_here TS_decl_none s2)) else
     let '(ok, s3) := validate_var_decl name dpos false s2 in
     if ok then Ok (Some (SInferredDecl name t)) (apnl (assert_eol (scope_set name dpos s3)))
     else Ok None (apnl s3)
@@ -315,7 +315,7 @@ Fixpoint assign_target_loop (fuel : nat) (tok : nat) (n : tree) (s : pst) : PR (
   | S f =>
     match ct s with
     | T_LBRACKET =>
-        if tyerr_s TS_assign_string_index n s then Ok None (upd (add_err_at (E_type TS_assign_string_index) tok) s) else
+        if tyerr_s TS_assign_string_index n tok then Ok None (upd (add_err_at (E_type TS_assign_string_index) tok) s) else
         pdo (r, s1) <- p_index n s;
         match r with None => Ok None s1 | Some n' => assign_target_loop f tok n' s1 end
     | T_DOT =>
@@ -347,7 +347,7 @@ Definition parse_assign_stmt (s : pst) : PR (option stmt) :=
     match v with
     | None => Ok None (apnl s3)
     | Some value =>
-      let s4 := if tyerr_s TS_assign_type (TBin T_ASSIGN target value) s3
+      let s4 := if tyerr_s TS_assign_type (TBin T_ASSIGN target value) tok
                 then upd (add_err_at (E_type TS_assign_type) tok) s3 else s3 in
       Ok (Some (SAssign target value)) (apnl (assert_eol s4))
     end
@@ -373,7 +373,7 @@ Definition parse_return_stmt (s : pst) : PR (option stmt) :=
                   else pdo (r, s2) <- p_toplevel s1;
                        match r with None => Ok None s2 | Some _ => Ok r (assert_eol s2) end);
   let s3 := if negb (has_ret s2) then serr_at K_return_not_allowed rv s2
-            else if tyerr_s TS_return_type (match v with Some t => t | None => TCall [] [] end) s2
+            else if tyerr_s TS_return_type (match v with Some t => t | None => TCall [] [] end) rv
                  then upd (add_err_at (E_type TS_return_type) rv) s2 else s2 in
   Ok (Some (SReturn v)) (apnl s3).
 
@@ -390,7 +390,7 @@ Definition parse_condition (s : pst) : PR (option tree) :=
   | None => Ok None s1
   | Some t =>
     let s2 := assert_eol s1 in
-    Ok c (if tyerr_s TS_condition t s2 then upd (add_err_at (E_type TS_condition) tok) s2 else s2)
+    Ok c (if tyerr_s TS_condition t tok then upd (add_err_at (E_type TS_condition) tok) s2 else s2)
   end.
 
 (* the statement parser is open in [ps] = parseStatement at the fuel available to callees *)
@@ -449,10 +449,10 @@ Definition parse_for_stmt (fuel : nat) (s : pst) : PR (option stmt) :=
     match nodes with
     | [] => Ok None (pop_scope (serr K_range_empty s7))
     | n :: more =>
-      if (match more with [] => false | _ => true end) && tyerr_s TS_for_multi n s7
+      if (match more with [] => false | _ => true end) && tyerr_s TS_for_multi n (pos s7)
       then Ok None (pop_scope (ty_err_here TS_for_multi s7)) else
       let s8 := assert_eol s7 in
-      let s9 := if tyerr_s TS_for_range_type (TCall [] nodes) s8 then ty_err_here TS_for_range_type s8 else s8 in
+      let s9 := if tyerr_s TS_for_range_type (TCall [] nodes) (pos s8) then ty_err_here TS_for_range_type s8 else s8 in
       pdo (b, s10) <- parse_block_with fuel false (apnl s9);
       Ok (Some (SFor v nodes b)) (pop_scope (finish_end s10))
     end
@@ -799,21 +799,43 @@ Definition decode_event (x : sx) : option (str * list ty) :=
 
 Definition pos_sx (p : position) : sx := Lst [sx_nat (fst p); sx_nat (snd p)].
 
-(* case: (((fname niladic) ...) (global ...) ((event (ty ...)) ...) ((TYPE "lit" line col) ...) (eofline eofcol))
-   answer: (accept) | (reject (line col) ...) | (crash) | (oof); the typing oracle never objects *)
+Definition tsite_name (s : tsite) : string :=
+  match s with
+  | TS_unary => "unary" | TS_binary => "binary" | TS_not_indexable => "not_indexable" | TS_index_type => "index_type"
+  | TS_not_sliceable => "not_sliceable" | TS_slice_bounds => "slice_bounds" | TS_dot_not_map => "dot_not_map"
+  | TS_assert_not_any => "assert_not_any" | TS_array_elem_none => "array_elem_none" | TS_map_value_none => "map_value_none"
+  | TS_call_args => "call_args" | TS_assign_string_index => "assign_string_index" | TS_assign_type => "assign_type"
+  | TS_decl_none => "decl_none" | TS_return_type => "return_type" | TS_for_multi => "for_multi"
+  | TS_for_range_type => "for_range_type" | TS_condition => "condition" | TS_event_param => "event_param"
+  end.
+
+Definition decode_tyerr (x : sx) : option (str * nat) :=
+  match x with
+  | Lst [Sym n; Int p] => Some (n, Z.to_nat p)
+  | _ => None
+  end.
+
+(* case: (((fname niladic) ...) (global ...) ((event (ty ...)) ...) ((TYPE "lit" line col) ...) (eofline eofcol)
+          ((site blamed-token) ...))
+   The last component is the typing oracle: the typing errors the real type checker reported, each as
+   its site and the token it blames (tokens left); the oracle objects exactly there.
+   answer: (accept) | (reject (line col) ...) | (crash) | (oof) *)
 Definition parser_case (x : sx) : sx :=
   match x with
-  | Lst [Lst fs; Lst gs; Lst evs; Lst ts; Lst [Int el; Int ec]] =>
-    match decode_list decode_func fs, decode_list decode_str gs, decode_list decode_event evs, decode_list decode_pos_token ts with
-    | Some funcs, Some globals, Some events, Some raw =>
-      let B := {| b_funcs := funcs; b_globals := globals; b_events := events; b_tyerr := fun _ _ _ => false |} in
+  | Lst [Lst fs; Lst gs; Lst evs; Lst ts; Lst [Int el; Int ec]; Lst tes] =>
+    match decode_list decode_func fs, decode_list decode_str gs, decode_list decode_event evs,
+          decode_list decode_pos_token ts, decode_list decode_tyerr tes with
+    | Some funcs, Some globals, Some events, Some raw, Some tyerrs =>
+      let oracle := fun (site : tsite) (_ : tree) (n : nat) =>
+        existsb (fun e => str_eqb (fst e) (s_ (tsite_name site)) && Nat.eqb (snd e) n) tyerrs in
+      let B := {| b_funcs := funcs; b_globals := globals; b_events := events; b_tyerr := oracle |} in
       match parse B raw (Z.to_nat el, Z.to_nat ec) with
       | Accept _ => Lst [Sym (s_ "accept")]
       | Reject es => Lst (Sym (s_ "reject") :: map pos_sx es)
       | CrashOut _ => Lst [Sym (s_ "crash")]
       | OutOfFuel => Lst [Sym (s_ "oof")]
       end
-    | _, _, _, _ => Sym (s_ "bad-case")
+    | _, _, _, _, _ => Sym (s_ "bad-case")
     end
   | _ => Sym (s_ "bad-case")
   end.
